@@ -202,6 +202,74 @@ theorem C08_sharded_no_touch (newMode : Nat) (cb : Bool) (jobs : List (String ×
     · intro n i hn
       exact ⟨h.2.file n i hn, h.2.data i (h0.named _ _ hn), h.2.mode i (h0.named _ _ hn)⟩
 
+
+/-- **C08_unload_crash**: the same crash guarantee for `unload_from_model` (what `ir.save` calls):
+small external tensors are first copied to memory, then the single-file save runs; in every
+visited state, under every fault assignment, the destination holds its previous bytes or the
+complete new bytes. -/
+theorem C08_unload_crash (cfg : Cfg) (small : List (Nat × Ext)) (s0 : St) (h0 : WF s0)
+    (f : Nat → Option Nat) :
+    ∀ st ∈ (unload cfg small f s0).steps,
+      content st.st (.user cfg.env.dest) = content s0 (.user cfg.env.dest) ∨
+      content st.st (.user cfg.env.dest) = some (image cfg.tensors) := by
+  have hl := load_phase cfg.env f small 0 s0
+  intro st hst
+  unfold unload at hst
+  simp only [] at hst
+  split at hst
+  · exact Or.inl (sameFS_content (hl.2 st hst) _)
+  · simp only [List.mem_append] at hst
+    rcases hst with hst | hst
+    · exact Or.inl (sameFS_content (hl.2 st hst) _)
+    · rw [← sameFS_content hl.1]
+      exact C08_crash_serial cfg _ (sameFS_wf h0 hl.1) _ f st hst
+
+/-- **C08_unload_fs_frame**: whatever fails, `unload_from_model` never changes a caller path other
+than the destination, nor the bytes or mode of any file that existed. -/
+theorem C08_unload_fs_frame (cfg : Cfg) (small : List (Nat × Ext)) (s0 : St) (h0 : WF s0)
+    (f : Nat → Option Nat) :
+    ∀ st ∈ (unload cfg small f s0).steps,
+      (∀ n, n ≠ cfg.env.dest → st.st.fs.file (.user n) = s0.fs.file (.user n)) ∧
+      (∀ j, j < s0.fs.next → st.st.fs.data j = s0.fs.data j ∧ st.st.fs.mode j = s0.fs.mode j) := by
+  have hl := load_phase cfg.env f small 0 s0
+  intro st hst
+  have hsame : ∀ s, SameFS s0 s →
+      (∀ n, n ≠ cfg.env.dest → s.fs.file (.user n) = s0.fs.file (.user n)) ∧
+      (∀ j, j < s0.fs.next → s.fs.data j = s0.fs.data j ∧ s.fs.mode j = s0.fs.mode j) := by
+    intro s hs; rw [hs.fs]; exact ⟨fun _ _ => rfl, fun _ _ => ⟨rfl, rfl⟩⟩
+  unfold unload at hst
+  simp only [] at hst
+  split at hst
+  · exact hsame _ (hl.2 st hst)
+  · simp only [List.mem_append] at hst
+    rcases hst with hst | hst
+    · exact hsame _ (hl.2 st hst)
+    · have hk := (save_kept cfg _ (sameFS_wf h0 hl.1) (runList cfg.env f (loadEffs small) 0 s0).steps.length f).1 st hst
+      have hfs := hl.1.fs
+      refine ⟨fun n hn => ?_, fun j hj => ?_⟩
+      · rw [hk.file n hn, hfs]
+      · have hj' : j < (runList cfg.env f (loadEffs small) 0 s0).final.fs.next := by rw [hfs]; exact hj
+        rw [hk.data j hj', hk.mode j hj', hfs]
+        exact ⟨rfl, rfl⟩
+
+
+/-- **C08_small_loaded_first** (the mechanism of `unload_from_model` 1058-1065): when the load
+phase completes, the memory copy of every small external tensor is what the tensor read *before*
+the save started — in every later state, whatever then happens to the data file (the save never
+touches the copies), for every fault assignment of the save. -/
+theorem C08_small_loaded_first (cfg : Cfg) (small : List (Nat × Ext))
+    (hnd : (small.map (·.1)).Nodup) (s0 : St) (f : Nat → Option Nat)
+    (hok : (runList cfg.env f (loadEffs small) 0 s0).faulted = false) :
+    ∀ p ∈ small, (unload cfg small f s0).final.mem p.1 = readT s0 p.1 p.2 := by
+  intro p hp
+  have hl := loads_spec cfg.env s0 small s0 hnd rfl rfl (fun _ _ => rfl)
+  have hfin : (runList cfg.env f (loadEffs small) 0 s0).final = applyAll cfg.env (loadEffs small) s0 := by
+    rw [runList_nofault cfg.env f _ _ _ hok, runList_none_final]
+  unfold unload
+  simp only [hok, Bool.false_eq_true, if_false]
+  rw [(save_mem cfg f _ _).1, hfin]
+  exact hl.1 p hp
+
 /-! ### Non-vacuity: a concrete well-formed state and concrete runs -/
 
 /-- a directory with `m.data` = inode 0 holding `[1,2,3,4]` (mode 0o600) -/
@@ -256,6 +324,13 @@ theorem C08_cleanup_gap :
     r.faulted = true ∧ r.final.replaced = true ∧
     content r.final (.user "m.data") = some [9, 9, 8, 1, 2] ∧ r.final.valid 1 = true ∧
     readT r.final 1 ⟨"m.data", 0, 2⟩ = some [9, 9] := by decide
+
+/-- unload: tensor 7 is small and external (backed by the destination); its copy holds the old bytes
+although the destination has been replaced -/
+example :
+    let r := unload exCfg [(7, ⟨"m.data", 1, 2⟩)] (fun _ => none) exSt
+    r.faulted = false ∧ r.final.mem 7 = some [2, 3] ∧
+    content r.final (.user "m.data") = some [9, 9, 8, 1, 2] := by decide
 
 /-- sharded: the pre-flight refuses when a shard name exists, and otherwise runs -/
 example : (saveSharded 420 false [("m.data", [])] (fun _ => none) exSt).steps.length = 0 := by decide
